@@ -40,7 +40,7 @@ var hostileTexts = []string{
 
 func init() {
 	register("C01", func(c *engine.Ctx) {
-		c.Rule = "random schemas over all supported features x random option sets (--extra-imports, --only-models, --min-sized-ints, --tags, --capitalization, --struct-name-from-title), systematic feature pairs (constraint kind x position x nullable x default x format), and hostile free text (newlines, quotes, comment terminators, backslashes, %, 300-character words, U+2028, backticks) in descriptions and titles, and distinct but structurally equal declarations (a string enum listing a member twice at property / definition / items position; two property paths with the same scope name, each an anyOf / allOf over the same $refs); every emitted file must be accepted by go/format (and be a fixed point of it), produce no 'could not be formatted' warning, parse, and compile against exactly its declared imports in a batch go build. A compile failure is tolerated only when the model predicted it AND its class is a listed known finding; the model's predicted import set and declaration summary are diffed against go/ast. Distinct = distinct (stream, option set, outcome, schema shape)."
+		c.Rule = "random schemas over all supported features x random option sets (--extra-imports, --only-models, --min-sized-ints, --tags, --capitalization, --struct-name-from-title), systematic feature pairs (constraint kind x position x nullable x default x format), and hostile free text (newlines, quotes, comment terminators, backslashes, %, 300-character words, U+2028, backticks) in descriptions and titles, non-ASCII names (combining marks, Indic vowel signs, CJK, Greek, Cyrillic) as property / definition / enum-member / title names, and distinct but structurally equal declarations (a string enum listing a member twice at property / definition / items position; two property paths with the same scope name, each an anyOf / allOf over the same $refs); every emitted file must be accepted by go/format (and be a fixed point of it), produce no 'could not be formatted' warning, parse, and compile against exactly its declared imports in a batch go build. A compile failure is tolerated only when the model predicted it AND its class is a listed known finding; the model's predicted import set and declaration summary are diffed against go/ast. Distinct = distinct (stream, option set, outcome, schema shape)."
 		c.Proofs([]string{"GJS.Props.C01"}, []string{
 			"GJS.Props.C01.addImport_imports", "GJS.Props.C01.addImport_mono", "GJS.Props.C01.addImport_idempotent",
 			"GJS.Props.C01.string_validator_imports_regexp", "GJS.Props.C01.numeric_validator_only_if_it_emits", "GJS.Props.C01.shadowName_differs",
@@ -124,6 +124,31 @@ func init() {
 			pc := baseCase("c01-shadow-names", schema, nil, rootName)
 			pc.Cfg.RootType = rootName
 			pcs = append(pcs, pc)
+		}
+		// (f) non-ASCII names whose runes satisfy the table hypotheses of C14.ident_valid (the model's generator covers
+		// ASCII names only: these are judged by the oracle alone): combining marks after letters, Indic vowel signs, CJK,
+		// precomposed letters, Greek, Cyrillic — as property names, definition names, enum members and titles
+		uniNames := []string{"cafe\u0301", "cre\u0300me br\u00fble\u0301e", "\u0928\u093e\u092e", "\u092a\u094d\u0930\u0915\u093e\u0930", "\u65e5\u672c\u8a9e", "na\u00efve", "\u03b1\u03b2\u03b3", "\u043f\u0440\u0438\u0432\u0435\u0442", "x\u0301y\u0308z", "a\u200db"}
+		for _, nm := range uniNames {
+			ok := true
+			for _, r := range nm {
+				if !tableOK(r) {
+					ok = false
+				}
+			}
+			if !ok {
+				continue
+			}
+			schema := sgen.M{"type": "object", "title": nm + " menu", "properties": sgen.M{nm: sgen.M{"type": "string", "minLength": 1}, "k": sgen.M{"$ref": "#/$defs/" + nm}, "e": sgen.M{"type": "string", "enum": []any{nm, "plain"}}},
+				"$defs": sgen.M{nm: sgen.M{"type": "object", "properties": sgen.M{"v": sgen.M{"type": "integer"}}}}}
+			for _, fromTitle := range []bool{false, true} {
+				pc := baseCase("c01-unicode-names", schema, nil, nm, fmt.Sprint(fromTitle))
+				pc.Cfg.StructNameFromTitle = fromTitle
+				if fromTitle {
+					pc.Cfg.RootType = ""
+				}
+				pcs = append(pcs, pc)
+			}
 		}
 		// (e) distinct but structurally equal declarations (Package.AddDecl keeps one): a string enum that lists a
 		// member twice; two property paths with the same scope name, each an anyOf / allOf over the same $refs
